@@ -343,4 +343,98 @@ row(T + "chomp_string|panic|panic_fmt|of:from_str", "INV-CRUNCHER", "chomp_leadi
 row(T + "chomp_string|index|index|of:index", "INV-CURSOR", "remaining_bytes[1..] with len >= 1")
 row(T + "chomp_string|index|index|of:unwrap", "INV-CHARBOUNDARY", "[..end_quote_index] where end_quote_index = find('\"') on the same str")
 
+
+# ---- analyzer (C05 / C20)
+def _scratch_rule(fn, F, E):
+    import framework
+    sub = framework.Check("scratch", "quick", 0, "other", F, {})
+    fn(sub, F, E, "X")
+    return not any(o.status == "violation" for o in sub.obs)
+
+
+def chk_inv_map(F, E, body, s):
+    import common
+    return _scratch_rule(common.map_rule, F, E)
+
+
+def chk_analyzer_errloc(F, E, body, s):
+    """err.location.unwrap() after populate_error_location: only DataTypeMismatch can stay None, and the
+    analyzer cannot construct it."""
+    import panics
+    if not body.calls_to("Program::populate_error_location"):
+        return False
+    G = panics.CallGraph(F)
+    root = F.one("StatementAnalyzer::evaluate_statement")
+    if root is None:
+        return False
+    seen = G.reachable([root.path])
+    for p in seen:
+        b = F.bodies[p]
+        for blk in b.blocks:
+            for st in blk["stmts"]:
+                if st["k"] == "assign" and st["rv"]["k"] == "aggregate" and st["rv"].get("variant") == "DataTypeMismatch":
+                    return False
+    pe = F.one("Program::populate_error_location")
+    return pe is not None and bool(pe.calls_to("Program::get_prev_location"))
+
+
+def chk_analyzer_numbered(F, E, body, s):
+    """log_access' try_into().unwrap(): statements are analysed only at numbered locations."""
+    run = F.one("SourceFileAnalyzer::run")
+    if run is None:
+        return False
+    news = run.calls_to("StatementAnalyzer::new")
+    rf = run.calls_to("Program::run_from_first_numbered_line")
+    if not news or not rf or not all(run.dominates(rf[0].bb, n.bb) for n in news):
+        return False
+    ht = run.calls_to("Program::has_next_token")
+    if not any(run.dominates(h.bb, n.bb) for h in ht for n in news):
+        return False
+    # nobody else builds analyzers
+    cs = [b.path for b, _ in callers_of(F, "StatementAnalyzer::new")]
+    if any(not sfx(c, "SourceFileAnalyzer::run") for c in cs):
+        return False
+    # analysing a statement never moves the line
+    root = F.one("StatementAnalyzer::evaluate_statement")
+    for (k, p) in E.info[root.path].writes:
+        if p and p[-1] == ("abasic_core::program::Program", "location"):
+            return False
+        if p and p[-1] == ("abasic_core::program::ProgramLocation", "line"):
+            return False
+    return True
+
+
+A = P + "analyzer::"
+row(A + "source_file_analyzer::SourceFileAnalyzer::run|panic|panic_fmt|of:new", "INV-MAP",
+    "every stored line is mapped with its token ranges, so map_location_to_source is total on error locations", chk_inv_map)
+row(A + "source_file_analyzer::SourceFileAnalyzer::populate_symbol_access_warnings|unwrap|unwrap|of:map_location_to_source",
+    "INV-MAP", "symbol accesses are logged at tokens of stored lines, all of which are mapped", chk_inv_map)
+row(A + "source_file_analyzer::SourceFileAnalyzer::run|unwrap|unwrap|of:.location", "INV-ERRLOC",
+    "populate_error_location leaves None only for DataTypeMismatch, which analysis cannot raise", chk_analyzer_errloc)
+row(A + "source_map::SourceFileMap::map_location_to_source|index|index|of:.file_line_ranges", "INV-MAP",
+    "values of basic_lines_to_file_lines are indices of entries pushed by add()", chk_inv_map)
+row(A + "source_map::SourceFileMap::map_to_source|index|index|of:.file_line_ranges", "INV-MAP",
+    "diagnostics carry the enumerate() index of a file line, and every file line pushed exactly one entry", chk_inv_map)
+row(A + "source_map::SourceFileMap::map_to_source|index|index|of:.file_line_ranges#2", "INV-MAP",
+    "diagnostics carry the enumerate() index of a file line, and every file line pushed exactly one entry", chk_inv_map)
+row(A + "statement_analyzer::StatementAnalyzer::evaluate_print_statement|unwrap|unwrap|of:next_token", "INV-PEEKED",
+    "the preceding peek_next_token() matched Some and the cursor did not move", chk_peek_then_next)
+row(A + "symbol_access::SymbolAccessMap::log_access|unwrap|unwrap|of:try_from", "INV-ANALYZER-NUMBERED",
+    "statements are analysed only after run_from_first_numbered_line / next_line, at numbered locations", chk_analyzer_numbered)
+row(A + "expression_analyzer::ExpressionAnalyzer::evaluate_user_defined_function_call|assert|Overflow:Sub", "INV-ARITY",
+    "`arity - 1` is evaluated inside the loop over arg_names, which runs only when arity >= 1", chk_in_loop_over_same_vec)
+
+# ---- LSP server (C20)
+L = "abasic_lsp::"
+row(L + "get_semantic_tokens|assert|Overflow:Sub", "INV-ENUMERATE",
+    "line_number comes from enumerate() and prev_line_number is an earlier line_number")
+row(L + "get_semantic_tokens|assert|Overflow:Sub#2", "INV-ORDERED-RANGES",
+    "token ranges of one line are ordered (C13 monotone cursor) and prev_token_start is an earlier start")
+row(L + "main_loop|unwrap|unwrap|of:to_value", "PLAIN-DATA", "serialising SemanticTokens (integers only) to JSON cannot fail")
+
+# ---- Web adapter (C19)
+W = "abasic_web::"
+row(W + "JsInterpreter::get_state|panic|begin_panic", "INV-NO-TRANSIENT",
+    "every Ok path of start/continue_evaluating passes maybe_replace_interpreter (C19:TRANSIENT rules)")
+
 ROWS = R
